@@ -94,20 +94,22 @@ type Net struct {
 	// KeepData: keep payload bytes in the event log (default true); large runs may switch it off.
 	KeepData bool
 	// delivery-order fingerprint per receiver
-	order map[uint16][]byte
+	order              map[uint16][]byte
 	inflightDeliveries int32
 	// concurrent mode
-	concurrent bool
-	links      map[Link]chan *Packet
-	Jitter     func(l Link) // called by a link dispatcher before each delivery in concurrent mode
-	wg         sync.WaitGroup
-	delivered  int64
-	sent       int64
+	concurrent  bool
+	links       map[Link]chan *Packet
+	Jitter      func(l Link) // called by a link dispatcher before each delivery in concurrent mode
+	wg          sync.WaitGroup
+	delivered   int64
+	sent        int64
+	closedLinks int
+	done        chan struct{}
 }
 
 func New() *Net {
 	n := &Net{q: map[Link][]*Packet{}, nodes: map[uint16]Handler{}, intercept: map[uint16]Interceptor{}, KeepData: true,
-		order: map[uint16][]byte{}, links: map[Link]chan *Packet{}}
+		order: map[uint16][]byte{}, links: map[Link]chan *Packet{}, done: make(chan struct{})}
 	n.cond = sync.NewCond(&n.mu)
 	return n
 }
@@ -186,9 +188,16 @@ func (n *Net) Inject(src uint16, o Outgoing) {
 	atomic.AddInt64(&n.sent, 1)
 	l := Link{src, o.Dst}
 	if n.concurrent {
+		if n.stop {
+			n.mu.Unlock()
+			return
+		}
 		ch := n.linkChanLocked(l)
 		n.mu.Unlock()
-		ch <- p
+		select {
+		case ch <- p:
+		case <-n.done:
+		}
 		return
 	}
 	n.q[l] = append(n.q[l], p)
@@ -426,12 +435,11 @@ func (n *Net) RunRandom(rng *rand.Rand, pol Policy) {
 
 func (n *Net) Stop() {
 	n.mu.Lock()
-	n.stop = true
-	n.cond.Broadcast()
-	for _, ch := range n.links {
-		close(ch)
+	if !n.stop {
+		n.stop = true
+		close(n.done)
 	}
-	n.links = map[Link]chan *Packet{}
+	n.cond.Broadcast()
 	n.mu.Unlock()
 }
 
@@ -451,7 +459,13 @@ func (n *Net) linkChanLocked(l Link) chan *Packet {
 	n.wg.Add(1)
 	go func() {
 		defer n.wg.Done()
-		for p := range ch {
+		for {
+			var p *Packet
+			select {
+			case p = <-ch:
+			case <-n.done:
+				return
+			}
 			if n.Jitter != nil {
 				n.Jitter(l)
 			}
@@ -488,3 +502,10 @@ func LogTail(log []Event, k int) []string {
 }
 
 func SameBytes(a, b []byte) bool { return bytes.Equal(a, b) }
+
+// LinkCount returns the number of per-link dispatcher goroutines created in concurrent mode.
+func (n *Net) LinkCount() int {
+	n.mu.Lock()
+	defer n.mu.Unlock()
+	return len(n.links)
+}
